@@ -50,13 +50,32 @@ impl Interface {
     }
 
     pub fn all_base_interfaces(&self) -> Vec<&Interface> {
-        let mut all_bases = self.base_interfaces();
-        all_bases.extend(self.bases.iter().flat_map(|type_ref| type_ref.all_base_interfaces()));
+        // Collects the bases of `interface` (first its direct bases, then the bases of each of these, in order),
+        // skipping the duplicates created by diamond inheritance. Each interface is only expanded the first time it's
+        // reached: expanding it again could only add duplicates, and the number of inheritance paths that lead to an
+        // interface can grow exponentially with the number of interfaces.
+        fn collect<'a>(
+            interface: &'a Interface,
+            all_bases: &mut Vec<&'a Interface>,
+            seen_identifiers: &mut std::collections::HashSet<String>,
+            expanded_identifiers: &mut std::collections::HashSet<String>,
+        ) {
+            let bases = interface.base_interfaces();
+            for base in &bases {
+                if seen_identifiers.insert(base.parser_scoped_identifier()) {
+                    all_bases.push(base);
+                }
+            }
+            for base in bases {
+                if expanded_identifiers.insert(base.parser_scoped_identifier()) {
+                    collect(base, all_bases, seen_identifiers, expanded_identifiers);
+                }
+            }
+        }
 
-        // Filter duplicates created by diamond inheritance in-place.
-        let mut seen_identifiers = std::collections::HashSet::new();
-        all_bases.retain(|base| seen_identifiers.insert(base.parser_scoped_identifier()));
-
+        let mut all_bases = Vec::new();
+        let (mut seen_identifiers, mut expanded_identifiers) = Default::default();
+        collect(self, &mut all_bases, &mut seen_identifiers, &mut expanded_identifiers);
         all_bases
     }
 }
